@@ -258,6 +258,10 @@ func checkMsgNtC(c *core.Ctx, v *variant, i int) {
 	}
 	c.Count("msg_ntc_checked", 1)
 	c.Distinct("msg", "ntc", v.Base, v.Hash)
+	if (v.Policy == "block-array-indef" && v.Base == "shelley_testnet") || (v.Policy == "as-is" && v.Base == "byron_main_testnet") {
+		c.Sample(map[string]any{"level": "constructor -> wire -> NewMsgFromCbor", "mode": "ntc", "block": v.Base, "re_encoding": v.Policy,
+			"served_block": core.HexFull(b.Cbor), "wire": core.HexFull(enc), "arrived_type": d.BlockType(), "arrived_hash": blk.Hash().String()})
+	}
 }
 
 func parseTip(n *cborx.Node) (rig.Tip, bool) {
@@ -383,6 +387,11 @@ func checkMsgNtN(c *core.Ctx, v *variant, i int) {
 		viol("header-hash", "header.Hash() of the arrived header differs from the served block's hash")
 		return
 	}
+	if (v.Policy == "header-array-w1" && v.Base == "shelley_testnet") || (v.Policy == "as-is" && v.Base == "byron_main_testnet") {
+		c.Sample(map[string]any{"level": "constructor -> wire -> NewMsgFromCbor", "mode": "ntn", "block": v.Base, "re_encoding": v.Policy,
+			"served_header": core.HexFull(b.Header), "served_hash": fmt.Sprintf("%x", b.Hash[:]), "wire": core.HexFull(enc),
+			"arrived_era": d.WrappedHeader.Era, "arrived_block_type": arrivedType, "arrived_hash": hdr.Hash().String()})
+	}
 	if b.Byron {
 		c.Count("msg_ntn_byron_checked", 1)
 	} else {
@@ -427,8 +436,8 @@ func runE2E(c *core.Ctx, ntn bool, vs []*variant, limit int) {
 	}
 	c.Journal("C22 e2e %s %s (%d variants)", mode, vs[0].Base, len(vs))
 	var mu sync.Mutex
-	served := 0         // variants the server has tried to send (index of the next one)
-	var sent []int      // indexes of the variants the server did send
+	served := 0    // variants the server has tried to send (index of the next one)
+	var sent []int // indexes of the variants the server did send
 	refused := map[int]string{}
 	var arrivals []arrival
 	progress := make(chan struct{}, 4*len(vs)+8)
@@ -626,6 +635,11 @@ wait:
 		default:
 			c.Count("e2e_"+mode+"_checked", 1)
 			c.Distinct("e2e", mode, v.Base, v.Hash)
+			if v.Base == "dijkstra" && (v.Policy == "as-is" || v.Policy == "block-array-w2") {
+				c.Sample(map[string]any{"level": "real server -> real client", "mode": mode, "block": v.Base, "re_encoding": v.Policy, "pipeline_limit": limit,
+					"served_block": core.HexFull(v.Blk.Cbor), "served_hash": fmt.Sprintf("%x", v.Blk.Hash[:]), "client_block_type": a.Type,
+					"client_hash": fmt.Sprintf("%x", a.Hash), "client_cbor_len": len(a.Cbor), "tip": a.Tip.String()})
+			}
 		}
 	}
 	for i, why := range refused {
@@ -715,16 +729,6 @@ func run(c *core.Ctx) {
 	}
 	c.Parallel("job", len(jobs), workers, func(i int, _ *core.Rand) {
 		j := jobs[i]
-		t0 := time.Now()
-		defer func() {
-			name := j.kind
-			if j.v != nil {
-				name += "_" + j.v.Base
-			} else {
-				name += fmt.Sprintf("_%s_ntn=%v", j.vs[0].Base, j.ntn)
-			}
-			c.Count("ms_"+name, int(time.Since(t0).Milliseconds()))
-		}()
 		if j.kind == "msg" {
 			// quick: the 648 kB EBB goes through the NtC constructor / decoder once, in the end-to-end job
 			if c.Thorough() || len(j.v.Blk.Cbor) < 200000 {
